@@ -92,11 +92,11 @@ static void run(int n, int maxm, const vector<double> &ws, bool layout) {
 }
 int main(int argc, char **argv) {
     ctx.init(argc, argv);
-    freopen("/dev/null", "w", stderr);   // ConstrainedFDLayout warns on every non-positive length
+    if (!ctx.c15()) freopen("/dev/null", "w", stderr);   // ConstrainedFDLayout warns on every non-positive length (under the sanitised build stderr carries the reports)
     bool T = ctx.thorough();
     vector<double> ws = {0, 0.5, 1, 2}, wl = {-1, 0, 0.5, 2};
     run(1, 2, ws, false); run(2, 4, ws, false); run(3, 4, ws, false); run(4, 3, ws, false);
     run(2, 3, wl, true); run(3, 3, wl, true);
-    if (T) { run(4, 4, ws, false); run(5, 3, ws, false); run(4, 3, wl, true); run(3, 4, wl, true); run(5, 4, {0.5, 1}, false); }
+    if (T) { run(4, 4, ws, false); run(5, 3, ws, false); run(4, 3, wl, true); run(3, 4, wl, true); run(5, 4, {0.5, 1}, false); run(6, 3, {0.5, 1}, false); run(5, 4, ws, false); run(4, 4, wl, true); }
     return ctx.finish();
 }
